@@ -143,12 +143,77 @@ def core_packet(ctx, pv, sentinel=False, lite=False, first=0, last=None):
     return z3.And(*conds)
 
 
+def retarget(ctx, pv1, pv2):
+    """ONE context object whose protocol_version is reassigned (as
+    Connection.connect() does when the same connection is re-targeted): what
+    is written after the change must carry the ids and layouts of the NEW
+    release"""
+    from minecraft.networking.connection import ConnectionContext
+    cx = ConnectionContext(protocol_version=pv1)
+    conds = []
+    picks = [i for i, c in enumerate(ref.CORE)
+             if c[2] in ('keep_alive', 'chat', 'chat_message', 'disconnect',
+                         'position_and_look')]
+    k = picks[concretize(ctx.int('packet', 0, len(picks) - 1))]
+    direction, state, name, cname = ref.CORE[k]
+    P = _class(direction, state, cname)
+    enc = ref.Enc(ctx.W)
+    for rnd, pv in enumerate((pv1, pv2)):
+        cx.protocol_version = pv
+        lay = ref.layout(direction, state, name, pv)
+        vals, refvals = {}, []
+        for fname, tag in lay:
+            nm = '%s_%d' % (fname, rnd)
+            if tag == 'varint':
+                v = ctx.int(nm, 0, 127)
+                rv = E(v)
+            elif tag == 'long':
+                v = ctx.int(nm, -(1 << 63), (1 << 63) - 1)
+                rv = E(v)
+            elif tag == 'byte':
+                v = ctx.int(nm, -128, 127)
+                rv = E(v)
+            elif tag == 'bool':
+                v = ctx.bool(nm)
+                rv = EB(v)
+            elif tag == 'string':
+                v = sstr.ctx_str(ctx, nm, 1, ascii_only=True)
+                rv = sstr.SStr.of(v).cps
+            elif tag == 'uuid':
+                v = models.uuid_input(ctx, nm)
+                rv = models.uuid_bytes(v)
+            elif tag in ('double', 'float'):
+                v = 1.5
+                rv = fp.fval(1.5)
+            else:
+                raise KeyError(tag)
+            vals[fname] = v
+            refvals.append((tag, rv))
+        pkt = P(cx)
+        for fname, v in vals.items():
+            setattr(pkt, fname, v)
+        buf = new_buffer()
+        pkt.write(buf)
+        out = written(buf)
+        want_id = ref.packet_id(direction, state, name, pv)
+        pre = wire.leb128_const(len(out) - 1)
+        conds.append(items_eq(out[:1], pre))
+        conds.append(enc.matches(out[1:], [
+            ('varint', z3.BitVecVal(want_id, ctx.W))] + refvals))
+    note_key(ctx, 'C07:retarget:%d>%d:%s.%s' % (pv1, pv2, direction, name))
+    return z3.And(*conds)
+
+
 def instances(tier, seed):
     out = []
     for pv in ref.RELEASES:
         out.append(Instance('release:%d' % pv, 'core_packet',
                             {'pv': pv, 'lite': tier != 'thorough'},
                             W=96, budget_s=3000, witness_every=3))
+    for pv1, pv2 in ((47, 340), (340, 578), (578, 754), (754, 757),
+                     (757, 47)):
+        out.append(Instance('retarget:%d>%d' % (pv1, pv2), 'retarget',
+                            {'pv1': pv1, 'pv2': pv2}, W=96, budget_s=900))
     out.append(Instance('sentinel:release:757', 'core_packet',
                         {'pv': 757, 'sentinel': True, 'lite': True,
                          'first': 11, 'last': 15}, W=96,
